@@ -394,6 +394,7 @@ func TestC13(t *testing.T) {
 	}
 	e.Stats["extra"].(map[string]any)["sa_roundtrips_that_renamed_something"] = saTouched
 	e.Sample([]string{"bimap a:b,c:b", "tr a:b,b:c a", "dir 1 local-ns:remote-ns,l2:r2 remote-ns req"})
+	e2eBothTranslations(t, e)
 	vtC13(e, g) // value-level correspondence (valtree_test.go): ops `valns` / `valsa`
 }
 
@@ -574,6 +575,7 @@ func TestC14(t *testing.T) {
 			}
 		}
 	}
+	e2eBothTranslations(t, e)
 	e.Sample([]string{"keys CustomKeywordField:Keyword01,x:y CustomKeywordField,Other"})
 	vtC14(e, g) // value-level correspondence (valtree_test.go): ops `valsa`
 }
@@ -672,7 +674,12 @@ func TestC16(t *testing.T) {
 				continue
 			}
 			seen[k] = true
-			for _, name := range []string{"allowed-ns", "forbidden-ns", ""} {
+			names := []string{"allowed-ns", "forbidden-ns", ""}
+			if e.Thorough() || rng.IntN(3) == 0 {
+				// look-alikes of an allowed name are different namespaces (names are case-sensitive)
+				names = append(names, []string{"Allowed-NS", "ALLOWED-NS", "Also-Ok", "allowed-n", "allowed-nss"}[rng.IntN(5)])
+			}
+			for _, name := range names {
 				if name == "" && viaEventLinks(g, p) {
 					// an EMPTY link namespace does not stop the skip shortcut, so whether the (empty) name is offered to the
 					// matcher depends on the event type; empty is not "a different namespace": outside the property, not compared
@@ -698,14 +705,14 @@ func TestC16(t *testing.T) {
 				}
 				op := fmt.Sprintf("unary 1 %s %s %s", pstr, fullFor(r), strings.Join(enc, ","))
 				e.Emit(op, dec)
-				if name == "forbidden-ns" {
+				if name != "allowed-ns" && name != "" {
 					// path level: the forbidden name at the end of this path is seen iff the visitor reaches it
 					e.Emit(fmt.Sprintf("aclpath %s %s %s %s", pstr, fullFor(r), encName(name), p.opString()), dec)
 				}
 				e.Evals++
 				e.Distinct(fnv(op + p.opString()))
 				e.Count("path_" + encName(name) + "_" + dec)
-				if name == "forbidden-ns" && (dec != "denied" || called) {
+				if name != "allowed-ns" && name != "" && (dec != "denied" || called) {
 					e.Violation(map[string]any{"what": fmt.Sprintf("request naming forbidden namespace at %s (root %s) was not refused (decision %s, handler called %v)", describePath(g, p), g.Types[r].Go, dec, called), "ops": []string{op}})
 				}
 				if allAllowed && dec != "forward" && !denyListed(fullFor(r)) {
@@ -833,7 +840,7 @@ func TestC16(t *testing.T) {
 	}
 	// ListNamespaces filter through the real workflow-service proxy server
 	for i := 0; i < 40; i++ {
-		pool := []string{"allowed-ns", "also-ok", "forbidden-ns", "x", "", "allowed-ns2"}
+		pool := []string{"allowed-ns", "also-ok", "forbidden-ns", "x", "", "allowed-ns2", "Allowed-NS", "ALSO-OK"}
 		var names []string
 		for k := 0; k < rng.IntN(6); k++ {
 			names = append(names, pool[rng.IntN(len(pool))])
@@ -929,4 +936,93 @@ func viaEventLinks(g *typeGraph, p tPath) bool {
 		}
 	}
 	return false
+}
+
+// e2eBothTranslations (C13 direction / single step, C14 keys): end to end through a running cluster connection with BOTH translations configured (namespace chain a->b->c,
+// one search-attribute mapping), calls of the two services interleaved: what one call does must not change how the
+// next one is translated (each message exactly one step, search-attribute keys every time)
+func e2eBothTranslations(t *testing.T, e *Env) {
+	{
+		cfg := config.ClusterConnConfig{}
+		cfg.NamespaceTranslation.Mappings = []config.StringMapping{{Local: "a", Remote: "b"}, {Local: "b", Remote: "c"}}
+		cfg.SearchAttributeTranslation.NamespaceMappings = []config.SANamespaceMapping{{Name: "a", NamespaceId: "ns-id",
+			Mappings: []config.SAMapping{{LocalName: "CustomKeywordField", RemoteName: "Keyword01"}}}}
+		pp, err := startProxyPair(t, cfg)
+		if err != nil {
+			t.Fatal(err)
+		}
+		const rawHistory = "/temporal.server.api.adminservice.v1.AdminService/GetWorkflowExecutionRawHistoryV2"
+		const describeMS = "/temporal.server.api.adminservice.v1.AdminService/DescribeMutableState"
+		const describeNs = "/temporal.api.workflowservice.v1.WorkflowService/DescribeNamespace"
+		for _, dir := range []string{"out", "in"} {
+			conn, be := pp.FromLocal, pp.Remote
+			reqNs, reqWant := "a", "b" // outbound: requests local -> remote
+			respKey, respKeyWant, respNs, respNsWant := "Keyword01", "CustomKeywordField", "c", "b"
+			if dir == "in" {
+				conn, be = pp.FromRemote, pp.Local
+				reqNs, reqWant = "c", "b" // inbound: requests remote -> local
+				respKey, respKeyWant, respNs, respNsWant = "CustomKeywordField", "Keyword01", "a", "b"
+			}
+			be.Respond = func(m string, req proto.Message, md metadata.MD) (proto.Message, error) {
+				switch {
+				case strings.HasSuffix(m, "GetWorkflowExecutionRawHistoryV2"):
+					blob, _ := evSerializer.SerializeEvents([]*historypb.HistoryEvent{{EventId: 1, EventType: enumspb.EVENT_TYPE_WORKFLOW_EXECUTION_STARTED,
+						Attributes: &historypb.HistoryEvent_WorkflowExecutionStartedEventAttributes{WorkflowExecutionStartedEventAttributes: &historypb.WorkflowExecutionStartedEventAttributes{
+							ParentWorkflowNamespace: respNs, SearchAttributes: &commonpb.SearchAttributes{IndexedFields: map[string]*commonpb.Payload{respKey: {Data: []byte("v")}, "Other": {Data: []byte("o")}}}}}}})
+					return &adminservice.GetWorkflowExecutionRawHistoryV2Response{HistoryBatches: []*commonpb.DataBlob{blob}}, nil
+				case strings.HasSuffix(m, "DescribeNamespace"):
+					return &workflowservice.DescribeNamespaceResponse{NamespaceInfo: &namespacepb.NamespaceInfo{Name: respNs}}, nil
+				}
+				return nil, nil
+			}
+			for step, call := range []string{"admin", "workflow", "admin", "workflow", "admin"} {
+				be.Reset()
+				op := fmt.Sprintf("# e2e-both dir=%s step=%d %s", dir, step, call)
+				e.Emit(op, "#")
+				e.Evals++
+				if call == "workflow" {
+					resp, err := invoke(conn, describeNs, &workflowservice.DescribeNamespaceRequest{Namespace: reqNs}, nil)
+					got := "?"
+					if err == nil {
+						got = resp.(*workflowservice.DescribeNamespaceResponse).GetNamespaceInfo().GetName()
+					}
+					if err != nil || got != respNsWant {
+						e.Violation(map[string]any{"what": fmt.Sprintf("both translations configured, %sbound server, call %d (DescribeNamespace): the response names %q, want %q (%v)", dir, step, got, respNsWant, err), "ops": []string{op}})
+					}
+					continue
+				}
+				_, err1 := invoke(conn, describeMS, &adminservice.DescribeMutableStateRequest{Namespace: reqNs}, nil)
+				seen := "?"
+				for _, c := range be.Calls() {
+					if r, ok := c.Req.(*adminservice.DescribeMutableStateRequest); ok {
+						seen = r.Namespace
+					}
+				}
+				resp, err2 := invoke(conn, rawHistory, &adminservice.GetWorkflowExecutionRawHistoryV2Request{NamespaceId: "ns-id"}, nil)
+				var keys []string
+				parent := "?"
+				if err2 == nil {
+					for _, b := range resp.(*adminservice.GetWorkflowExecutionRawHistoryV2Response).HistoryBatches {
+						if evs, derr := evSerializer.DeserializeEvents(b); derr == nil {
+							for _, ev := range evs {
+								parent = ev.GetWorkflowExecutionStartedEventAttributes().GetParentWorkflowNamespace()
+								for k := range ev.GetWorkflowExecutionStartedEventAttributes().GetSearchAttributes().GetIndexedFields() {
+									keys = append(keys, k)
+								}
+							}
+						}
+					}
+				}
+				sort.Strings(keys)
+				wantKeys := []string{"Other", respKeyWant}
+				sort.Strings(wantKeys)
+				e.Count("e2e_both_" + dir)
+				if err1 != nil || err2 != nil || seen != reqWant || parent != respNsWant || strings.Join(keys, ",") != strings.Join(wantKeys, ",") {
+					e.Violation(map[string]any{"what": fmt.Sprintf("both translations configured, %sbound server, call %d after %d call(s) of either service: request namespace %q reached the cluster as %q (want %q); response: parent namespace %q (want %q), search-attribute keys %v (want %v) (%v %v)",
+						dir, step, step, reqNs, seen, reqWant, parent, respNsWant, keys, wantKeys, err1, err2), "ops": []string{op}})
+				}
+			}
+		}
+		pp.Stop()
+	}
 }
